@@ -4,7 +4,7 @@
    with the same or another length, append, truncate, touch, unlink, recreate, replace by a directory /
    fifo / symlink), each stamping mtime := its time; the dedupe run stats the paths at the end of the
    history ([final], [stat_of]) and runs with --modified-before tsc (by default the header's time stamp,
-   possibly truncated to ms: tsc <= ts).  [hist_safe]: every file a command removes / replaces / moves
+   possibly truncated to ms: tsc <= ts).  The header's stamp is the time `group` STARTED (main.rs run_group).  [hist_safe]: every file a command removes / replaces / moves
    still has the bytes D the group was built on, an unchanged member holding D is not acted upon by any
    command, and every link target is such a member.
    Quantification: all contents, member lists, histories, the five operations, all configurations
@@ -15,46 +15,28 @@ From Coq Require Import Permutation Sorted.
 From FV Require Import Base SortLib DedupeModel DedupeProofs DedupeProofs3.
 Open Scope Z_scope.
 
-(* Every change stamped later than the report's time stamp is harmless (this is what the code gives:
-   the time stamp is taken in write_report, i.e. AFTER the members were read - see K1 below). *)
-Theorem C04_after_report_partial : forall D members op c sm glen ts tsc,
+(* THE PROPERTY.  run_group stamps the report before the scan starts ([stamped_before_reads], main.rs since
+   8227c8a), the dedupe run uses that stamp (or an earlier one: ms truncation) as cut-off, and every ordinary
+   operation made after a member was read stamps its own time: then every such change - while `group` is still
+   running or afterwards - is harmless. *)
+Theorem C04_full : forall D members op c sm glen ts tsc,
+  NoDup (map (fun m => mpath (hbase m)) members) ->
+  mbefore c = Some tsc -> tsc <= ts ->
+  stamped_before_reads ts members ->
+  (forall m t o, In m members -> In (t, o) (hops m) -> hr m < t) ->
+  hist_safe D members (hist_run D members op c sm glen).
+Proof. exact c04_safe. Qed.
+Print Assumptions C04_full.
+
+(* Whatever the stamp is (e.g. a library user calling write_report, which stamps the time of the call): every
+   change stamped later than it is harmless. *)
+Theorem C04_after_report : forall D members op c sm glen ts tsc,
   NoDup (map (fun m => mpath (hbase m)) members) ->
   mbefore c = Some tsc -> tsc <= ts ->
   (forall m t o, In m members -> In (t, o) (hops m) -> ts < t) ->
   hist_safe D members (hist_run D members op c sm glen).
 Proof. exact c04_after_report. Qed.
-Print Assumptions C04_after_report_partial.
-
-(* The full property, under the hypothesis the code does NOT establish: the time stamp is not later
-   than the first read of any member.  Then every change made after a member was read is harmless. *)
-Theorem C04_safe : forall D members op c sm glen ts tsc,
-  NoDup (map (fun m => mpath (hbase m)) members) ->
-  mbefore c = Some tsc -> tsc <= ts ->
-  (forall m, In m members -> ts <= hr m) ->
-  (forall m t o, In m members -> In (t, o) (hops m) -> hr m < t) ->
-  hist_safe D members (hist_run D members op c sm glen).
-Proof. exact c04_safe. Qed.
-Print Assumptions C04_safe.
-
-(* The same as "full statement except K1": changes after the read are harmless unless one falls into
-   the window (hr m, ts] between the read of the member and the time stamp of the report. *)
-Theorem C04_full_except_K1 : forall D members op c sm glen ts tsc,
-  NoDup (map (fun m => mpath (hbase m)) members) ->
-  mbefore c = Some tsc -> tsc <= ts ->
-  (forall m t o, In m members -> In (t, o) (hops m) -> hr m < t) ->
-  ~ K1 members ts ->
-  hist_safe D members (hist_run D members op c sm glen).
-Proof. exact c04_full_except_K1. Qed.
-Print Assumptions C04_full_except_K1.
-
-(* K1 (known finding, not fixed): hash a, b = "AAAA" at 10; rewrite b with "BBBB" at 15; write the report
-   (time stamp 20); remove: b is removed although nobody else holds "BBBB". *)
-Theorem C04_K1_witness :
-  K1 k1_members 20 /\
-  (forall m t o, In m k1_members -> In (t, o) (hops m) -> hr m < t) /\
-  ~ hist_safe k1_D k1_members (hist_run k1_D k1_members OpRemove k1_cfg (fun _ _ => true) 4).
-Proof. exact c04_k1_witness. Qed.
-Print Assumptions C04_K1_witness.
+Print Assumptions C04_after_report.
 
 (* the text report truncates the time stamp to milliseconds: that only moves the cut-off earlier *)
 Theorem C04_trunc_le : forall t, trunc_ms t <= t.
@@ -82,6 +64,30 @@ Theorem C04_changed_left_out : forall c glen ms kept dropped v, partition c glen
   (forall ts t, mbefore c = Some ts -> mmtime v = Some t -> t <= ts).
 Proof. exact c04_changed_left_out. Qed.
 Print Assumptions C04_changed_left_out.
+
+(* ------------------------------------------------------------------ K1 (repaired by 8227c8a) *)
+(* The old witness: a, b = "AAAA" read at 10, b rewritten with "BBBB" at 15.  With the stamp taken before the
+   scan (5 <= 10) the premises of C04_full hold and the run skips the group ... *)
+Definition k1_cfg_fixed : dcfg := mkCfg None (fun _ => false) (fun _ => true) [] false false (Some 5) [].
+Example C04_K1_regression :
+  stamped_before_reads 5 k1_members /\
+  (forall m t o, In m k1_members -> In (t, o) (hops m) -> hr m < t) /\
+  group_cmds (hist_run k1_D k1_members OpRemove k1_cfg_fixed (fun _ _ => true) 4) = [].
+Proof.
+  split; [|split].
+  - intros m [<-|[<-|[]]]; cbn; lia.
+  - exact (proj1 (proj2 c04_k1_witness)).
+  - vm_compute. reflexivity.
+Qed.
+(* ... whereas a stamp taken when the report is written (20, after the reads) is NOT enough: b is removed
+   although nobody else holds "BBBB" (what the code did before the fix; what a regression would do). *)
+Example C04_stamp_at_write_time_unsafe :
+  ~ stamped_before_reads 20 k1_members /\
+  ~ hist_safe k1_D k1_members (hist_run k1_D k1_members OpRemove k1_cfg (fun _ _ => true) 4).
+Proof.
+  split; [|exact (proj2 (proj2 c04_k1_witness))].
+  intros H. specialize (H _ (or_introl eq_refl)). cbn in H. lia.
+Qed.
 
 (* ------------------------------------------------------------------ non-vacuity *)
 (* three members; c is rewritten (different length) and d replaced by a directory after the report;
